@@ -214,6 +214,49 @@ def mass_nonincreasing(spec):
     return True
 
 
+def ast_degree(a):
+    """asymptotic polynomial degree of a rate AST in the species (for the explosion screen)"""
+    op = a[0]
+    if op in ("num", "par", "t", "vol"):
+        return 0
+    if op == "sp":
+        return 1
+    if op in ("+", "-"):
+        return max(ast_degree(a[1]), ast_degree(a[2]))
+    if op == "*":
+        return ast_degree(a[1]) + ast_degree(a[2])
+    if op == "/":
+        return max(0, ast_degree(a[1]) - ast_degree(a[2]))
+    if op == "^":
+        return ast_degree(a[1]) * (a[2][1] if a[2][0] == "num" else 4)
+    if op == "neg":
+        return ast_degree(a[1])
+    if op == "exp":
+        return 0 if a[1][0] == "neg" else 99
+    return max([ast_degree(x) for x in a[1:] if isinstance(x, list)] or [0])
+
+
+def superlinear_producer(spec):
+    """structural screen: a reaction whose rate grows faster than linearly in the counts and which makes more molecules
+    than it consumes can explode in FINITE time (X -> X+1 at rate g X^2 reaches infinity before any horizon with positive
+    probability; the simulator then never returns).  Such networks say nothing about the properties: rejected."""
+    for r in spec["reactions"]:
+        dl = r.get("delay") or {}
+        nin = len(r["reactants"]) + len(dl.get("reactants", []))
+        nout = len(r["products"]) + len(dl.get("products", []))
+        if nout <= nin:
+            continue
+        if r["type"] == "massaction":
+            deg = len(r["reactants"])
+        elif r["type"] == "general":
+            deg = ast_degree(r["ast"])
+        else:
+            deg = 1
+        if deg >= 2:
+            return True
+    return False
+
+
 def ssa_screen(spec, T, max_events=2500, trials=3, seed=1):
     """pure-Python Gillespie pre-screen (delays treated as zero): False if a trial needs more than max_events events
     or leaves the non-negative domain, i.e. the network is (stochastically) explosive for trajectory monitors."""
@@ -263,6 +306,8 @@ def bounded_network(rnd, T, tries=400, cap=400.0, **kw):
     for _ in range(tries):
         sp = network(rnd, counters=False, **kw)
         if not kw.get("nonmass_consumers") and not mass_nonincreasing(sp):
+            continue
+        if superlinear_producer(sp):
             continue
         if bounded(sp, T, cap) and ssa_screen(sp, T, seed=rnd.getrandbits(30)):
             if counters:
